@@ -180,7 +180,7 @@ func C16(c *Ctx) {
 				}
 				// the decision is the branch whose success side leads to the session write
 				// (an inner per-candidate compare inside a search loop is decided at the loop exit)
-				if !succ.Dominates(s.Op.Call.Block()) {
+				if !Dominates(succ, s.Op.Call.Block()) {
 					continue
 				}
 				nDec++
@@ -194,7 +194,7 @@ func C16(c *Ctx) {
 						return ok && f.Before == before && f.Const && f.Event == ev
 					}
 				}
-				if !succ.Dominates(b) {
+				if !Dominates(succ, b) {
 					q := PathQuery{StartBlock: succ, StartPred: b, Cut: isFire(true, evAuth), Goal: c.clientVisible}
 					if p := q.Find(); p != nil {
 						r.Bad("C16.pre-veto", name, "success side of "+credKinds(cs), posf(c, ifi), "a client-visible effect happens after the correct credential was recognised but before lock/confirm are consulted (FireBefore(EventAuth)): on a locked account it distinguishes a correct from an incorrect password", c.P.DescribePath(p)...)
@@ -202,8 +202,8 @@ func C16(c *Ctx) {
 						r.Ok("C16.pre-veto", name, "success side of "+credKinds(cs), posf(c, ifi), "nothing client-visible before FireBefore(EventAuth)")
 					}
 				}
-				if !fail.Dominates(b) {
-					q := PathQuery{StartBlock: fail, StartPred: b, Cut: isFire(false, evFail), Goal: c.clientVisible, Prune: func(from, to *ssa.BasicBlock) bool { return to.Dominates(b) && to != b }}
+				if !Dominates(fail, b) {
+					q := PathQuery{StartBlock: fail, StartPred: b, Cut: isFire(false, evFail), Goal: c.clientVisible, Prune: func(from, to *ssa.BasicBlock) bool { return Dominates(to, b) && to != b }}
 					if p := q.Find(); p != nil {
 						r.Bad("C16.pre-veto", name, "failure side of "+credKinds(cs), posf(c, ifi), "a client-visible effect happens after the wrong credential was recognised but before the failure event (where lock answers)", c.P.DescribePath(p)...)
 					} else {
